@@ -1199,6 +1199,7 @@ func (e *Exec) unhandledPanic(gp *goPanic) {
 			s.discharged++
 		default:
 			s.inconclusive++
+			h.abortMsgs[fmt.Sprintf("undecided panic path: %s at %s", describe(gp.val), gp.where)]++
 		}
 		for _, sc := range hits {
 			if _, ok := h.knownHits[sc.KnownID]; !ok {
